@@ -8,13 +8,13 @@ HERE = os.path.dirname(os.path.dirname(os.path.abspath(__file__)))
 BUILT = {
     "C01": (
         "exhaustive single-component mutation of validly signed requests on the real entry point, judged by a reference verifier",
-        "8 (quick) / 48 (thorough) validly signed base requests; for each, every single-component mutation is enumerated — every URI byte position x every byte http admits, insertions, deletions, respellings; every header byte position x 8 bytes; headers added/removed/duplicated/renamed; every body bit; old signature transplanted onto re-signed variants (instant, date text, scope near-misses, access key, signed list, token); all 256 single-bit flips of the provider's key; every signature digit x 15 values, truncations, extensions, all hex strings of length <= 2 — and the implementation may return Ok only if the independent reference verifier, run on the request as received with the key the provider handed out, accepts. Thorough adds all pairs over ~600 mutation sites on four bases.",
+        "8 (quick) / 48 (thorough) validly signed base requests; for each, every single-component mutation is enumerated — every URI byte position x every byte http admits, insertions, deletions, respellings; every header byte position x 8 bytes; headers added/removed/duplicated/renamed; every body bit; old signature transplanted onto re-signed variants (instant, date text, scope near-misses, access key, signed list, token); all 256 single-bit flips of the provider's key; every signature digit x 15 values, truncations, extensions, all hex strings of length <= 2 — and the implementation may return Ok only if the independent reference verifier, run on the request as received with the key the provider handed out, accepts. Each mutant is judged right after the genuine request was accepted on the same thread; finally the genuine request and forgeries under its signature are validated as futures multiplexed on one thread against a Pending provider in every order of polls. Thorough adds all pairs over ~600 mutation sites on four bases.",
         "Trusted: reference verifier (refmodel::verify). Only the soundness direction is a C01 violation; other disagreements are counted in notes. Known finding path-plus-as-space matched narrowly.",
         "DESIGN.md §4 C01",
     ),
     "C03": (
         "full product of credential-scope near-misses x server configurations x instants on the real entry point, with a scripted provider",
-        "Every five-part credential over 8 date variants x 8 near-misses each of region, service and terminator, against 3-5 server configurations and 3-6 instants (UTC date differing from the written date), signed correctly under its own foreign scope with a provider that hands out that key (mode A) or under the server's scope (mode B), plus credentials of 1-8 parts; kind/status and the provider's observed arguments are compared with the reference verifier on every case.",
+        "Every five-part credential over 8 date variants x 8 near-misses each of region, service and terminator, against 3-5 server configurations and 3-6 instants (UTC date differing from the written date), signed correctly under its own foreign scope with a provider that hands out that key (mode A) or under the server's scope (mode B), plus credentials of 1-8 parts and every history of up to 3 validations on one thread in which the server configuration changes while a credential scoped for another configuration is presented; kind/status and the provider's observed arguments are compared with the reference verifier on every case.",
         "Trusted: reference verifier; credential bytes read as ISO-8859-1.",
         "DESIGN.md §4 C03",
     ),
@@ -26,13 +26,13 @@ BUILT = {
     ),
     "C05": (
         "full product of requirement sets x header presence x signed subsets on the real entry point, every request correctly signed over its declared list",
-        "64 requirement sets x letter-case styles x four ways of building them x every subset of 7 optional headers x every signed subset x {host, :authority, neither}: 1.7 M (quick) / 10 M (thorough) correctly signed requests whose only possible defect is an unsigned required header; outcome and provider log compared with the reference rules.",
+        "64 requirement sets x letter-case styles x four ways of building them x every subset of 7 optional headers x every signed subset x {host, :authority, neither}: 1.7 M (quick) / 10 M (thorough) correctly signed requests whose only possible defect is an unsigned required header; outcome compared with the reference rules; plus every sequence of up to 4/5 add_*/remove_* operations on VecSignedHeaderRequirements against a set model, and the ready-made containers.",
         "Trusted: reference verifier's requirement rules (case-insensitive declared names, prefix match on lower-cased request header names).",
         "DESIGN.md §4 C05",
     ),
     "C07": (
         "exhaustive enumeration of wrong-signature variants with instruction-level trace comparison (ptrace single-step of forked children)",
-        "The property's own quantifier is finite: for each (request, key) group every position 0..63 (only that character wrong; thorough: also all characters from p on wrong) is traced instruction by instruction in a forked, warmed-up child of a single-threaded tracer built with the ship profile and a byte-wise early-exit memcmp/bcmp; every trace must equal the group's reference trace in length and RIP-sequence hash; the reference is traced twice to prove the apparatus deterministic.",
+        "The property's own quantifier is finite: for each (request, key) group every position 0..63 (only that character wrong; thorough: also all characters from p on wrong) is traced instruction by instruction in a forked, warmed-up child of a single-threaded tracer built with the ship profile and a byte-wise early-exit memcmp/bcmp; every trace must equal the group's reference trace in length and RIP-sequence hash; the reference is traced twice to prove the apparatus deterministic; an upper-case family and a family traced with a logger installed at Debug level are compared with their own references.",
         "Control flow only (no cache/micro-architecture); x86-64 build as compiled here; needs ptrace on own children. Hooks: none in the repository (memcmp/bcmp are overridden in the harness binary only).",
         "DESIGN.md §4 C07",
     ),
@@ -44,7 +44,7 @@ BUILT = {
     ),
     "C11": (
         "bounded exhaustive enumeration of header multisets, signed subsets, single edits and unsigned-header perturbations on the real entry point",
-        "32 k base requests (value lists over 10 values with outer/inner spaces, commas, quotes, tab, 0xE9; signed subsets; arrival orders): accepted and canonical request bytes equal to the reference's; every single edit of every signed header keeps the old signature and must be accepted iff the reference header block is unchanged; every insertion/removal/modification/rotation of unsigned headers must leave the outcome unchanged (differential, also on refused bases).",
+        "32 k base requests (value lists over 10 values with outer/inner spaces, commas, quotes, tab, 0xE9; signed subsets; arrival orders): accepted and canonical request bytes equal to the reference's; every single edit of every signed header keeps the old signature and must be accepted iff the reference header block is unchanged; every insertion/removal/modification/rotation of unsigned headers must leave the outcome unchanged (differential, also on refused bases); a repeated signed header among 12-100 header lines; eight Host spellings signed literally, cross-presented, each with 36 well-known / near-miss unsigned headers added.",
         "Trusted: reference header normal form (space-only trimming/collapsing). Header-name case is normalised by the http crate before the library sees it.",
         "DESIGN.md §4 C11",
     ),
@@ -56,13 +56,13 @@ BUILT = {
     ),
     "C13": (
         "explicit-state precedence automaton whose every behaviour (defect vector) is replayed against the implementation",
-        "The documented rule order is a 14-stage automaton (refmodel::prec); the full product of defect vectors per carrier (0.55 M quick, 8 M thorough) is enumerated, each vector materialised as a concrete request carrying exactly those defects and validated; kind, code, status, downcast, status class and provider consultation are compared with the automaton's terminal; 1 in 16 requests is cross-checked against the reference verifier; plus the kind->(code,status) table for every variant.",
+        "The documented rule order is a 14-stage automaton (refmodel::prec); the full product of defect vectors per carrier (0.55 M quick, 8 M thorough) is enumerated, each vector materialised as a concrete request carrying exactly those defects and validated; kind, code, status, downcast, status class and provider consultation are compared with the automaton's terminal; 1 in 16 requests is cross-checked against the reference verifier; a self-calibrating message-class oracle tells apart stages that share an error kind; plus the kind->(code,status) table for every variant.",
         "Trusted: the automaton's stage order (DESIGN.md appendix A). Body-related failures are outside the documented order (C12).",
         "DESIGN.md §4 C13",
     ),
     "C14": (
         "exhaustive exploration of provider behaviours (environment answers incl. Pending and errors) per request class, and of validation histories on one provider",
-        "33 request classes x every provider behaviour with up to 2 (quick) / 3 (thorough) Pending answers before readiness and before the key, 16 error shapes at either point, correct or wrong key; invariants on every execution (call once, only after Ready, never for requests that fail earlier; errors passed through unchanged or as 500; no error/wrong key/pending ever accepted; the future is polled at least 1+k+j times); plus every history of 1..3/4 validations over 20 symbols on one shared provider instance compared with fresh-provider outcomes.",
+        "33 request classes x every provider behaviour with up to 2 (quick) / 3 (thorough) Pending answers before readiness and before the key, 16 error shapes at either point, correct or wrong key; invariants on every execution (call once, only after Ready, never for requests that fail earlier; errors passed through unchanged or as 500; no error/wrong key/pending ever accepted; the future is polled at least 1+k+j times); plus every history of 1..3/4 validations over 20 symbols on one shared provider instance compared with what the model says for each step alone (incl. validations configured for another service), and a history through the crate's own service_for_signing_key_fn adapter.",
         "Provider wakes the task whenever it returns Pending; poll counts above the minimum are not judged.",
         "DESIGN.md §4 C14",
     ),
@@ -80,13 +80,13 @@ BUILT = {
     ),
     "C18": (
         "exhaustive histories, exhaustion of hash-map iteration orders, fresh-process first touch, and stateless DFS over thread schedules (preemption-bounded) and task interleavings of the real code",
-        "Corpus of 37 requests; every history of length <= 2/3; all joint iteration orders of the crate's own maps; one fresh process per element validated first; real OS threads under a controlled scheduler (scheduling points = the crate's log records + provider events), each exploration in its own process: all schedules with <= 3 preemptions (quick) / all interleavings (thorough) of six 2-thread pairs, 3-4 threads at bound 2-3; every poll order of 2-3 multiplexed validation futures; built-in canaries must be caught on every run; recorded failing schedules are replayed twice.",
+        "Corpus of 37 requests; every history of length <= 2/3; all joint iteration orders of the crate's own maps; one fresh process per element validated first; real OS threads under a controlled scheduler (scheduling points = the crate's log records + provider events), each exploration in its own process: all schedules with <= 3 preemptions (quick) / all interleavings (thorough) of six 2-thread pairs, 3-4 threads at bound 2-3; every poll order of 2-3 multiplexed validation futures; a further exploration makes every heap allocation a scheduling point (preemption bound 1/2); identities that depend on the session token; built-in canaries must be caught on every run; recorded failing schedules are replayed twice; explorations whose executions influence each other are redone with one forked process per execution.",
         "Preemption inside a synchronous phase and inside std::sync::Once / regex's pool is not explored; the free-running pass is a supplementary sample.",
         "DESIGN.md §4 C18",
     ),
     "C19": (
         "exhaustive enumeration of duplicated authentication inputs with the valid occurrence at every position",
-        "For each duplicable input (Authorization header; Credential/SignedHeaders/Signature inside it; X-Amz-Date; X-Amz-Date vs Date; security token; each X-Amz-* query parameter) 2 or 3 occurrences with the single valid one at every position, signed as received; validates iff the documented rule selects it; both carriers together refused with the provider untouched. The generator's expectation is independent of the reference verifier and cross-checked against it.",
+        "For each duplicable input (Authorization header; Credential/SignedHeaders/Signature inside it; X-Amz-Date; X-Amz-Date vs Date; security token; each X-Amz-* query parameter) 2 or 3 occurrences with the single valid one at every position, signed as received; validates iff the documented rule selects it; look-alike names in other letter cases and inputs of the carrier that is not in use are present as decoys; both carriers together refused with the provider untouched. The generator's expectation is independent of the reference verifier and cross-checked against it.",
         "Trusted: the documented selection rules as encoded in the generator.",
         "DESIGN.md §4 C19",
     ),
